@@ -22,9 +22,9 @@ Qed.
 
 Lemma next_state_pure : forall fill s d, next_state pure_cfg fill s d = s.
 Proof.
-  intros fill [t f w] d. unfold next_state. cbn [assigns_back appends_warning extends_features pure_cfg andb].
+  intros fill [t f w h] d. unfold next_state. cbn [assigns_back appends_warning extends_features writes_other_state pure_cfg andb].
   destruct (missing_features _ d); [reflexivity|].
-  cbn [clusters ts_features warnings]. destruct (corrected fill t d); reflexivity.
+  cbn [clusters ts_features warnings hidden]. destruct (corrected fill t d); reflexivity.
 Qed.
 
 Lemma hrun_pure : forall ops s, hrun pure_cfg s ops = s.
@@ -44,11 +44,11 @@ Proof. intros. rewrite hrun_pure. reflexivity. Qed.
 
 (* ---- what the result depends on ---- *)
 
-Lemma predict_out_ext : forall cfg fill s s' d,
+Lemma predict_out_ext : forall cfg fill s s' d, writes_other_state cfg = false ->
   clusters s = clusters s' -> ts_features s = ts_features s' ->
   predict_out cfg fill s d = predict_out cfg fill s' d.
 Proof.
-  intros cfg fill s s' d Hc Ht. unfold predict_out, missing_features, new_supp. rewrite Hc, Ht. reflexivity.
+  intros cfg fill s s' d Ho Hc Ht. unfold predict_out, missing_features, new_supp. rewrite Hc, Ht, Ho. reflexivity.
 Qed.
 
 Lemma next_state_keeps : forall cfg fill s d,
@@ -70,10 +70,10 @@ Proof.
 Qed.
 
 Lemma history_independent_guarded : forall cfg s ops d fill,
-  assigns_back cfg = false -> extends_features cfg = false ->
+  assigns_back cfg = false -> extends_features cfg = false -> writes_other_state cfg = false ->
   snd (predict_step cfg fill (hrun cfg s ops) d) = snd (predict_step cfg fill s d).
 Proof.
-  intros cfg s ops d fill Ha He. unfold predict_step. cbn [snd].
+  intros cfg s ops d fill Ha He Ho. unfold predict_step. cbn [snd].
   destruct (hrun_keeps cfg ops s Ha He) as [H1 H2]. apply predict_out_ext; assumption.
 Qed.
 
@@ -113,10 +113,10 @@ Definition covers (s : hstate) (d : dsum) : Prop :=
   NoDup (map fst (clusters s)) /\ all_known (clusters s) = true /\ ds_combos d = map fst (clusters s) /\
   (ds_ghi d = true -> mem GHI (ts_features s) = true) /\ new_supp s d = [].
 
-Lemma covering_next_state : forall cfg fill s d, covers s d -> next_state cfg fill s d = s.
+Lemma covering_next_state : forall cfg fill s d, writes_other_state cfg = false -> covers s d -> next_state cfg fill s d = s.
 Proof.
-  intros cfg fill [t f w] d (Hn & Hk & Hc & Hg & Hs). cbn [clusters ts_features warnings] in *.
-  unfold next_state. destruct (missing_features _ d); [reflexivity|]. cbn [clusters ts_features warnings].
+  intros cfg fill [t f w h] d Ho (Hn & Hk & Hc & Hg & Hs). cbn [clusters ts_features warnings hidden] in *.
+  unfold next_state. rewrite Ho. destruct (missing_features _ d); [reflexivity|]. cbn [clusters ts_features warnings hidden].
   rewrite (covering_keeps_table fill t d Hn Hk Hc). rewrite Hs, app_nil_r.
   assert (Hw : (appends_warning cfg && ds_ghi d && negb (mem GHI f)) = false).
   { destruct (ds_ghi d); [rewrite (Hg eq_refl)|]; destruct (appends_warning cfg); reflexivity. }
@@ -126,7 +126,7 @@ Qed.
 (* ---- refutations: each of the three statements alone breaks the property ---- *)
 
 Definition w_table : table := [((1, 0), Some 0); ((2, 0), Some 1)].
-Definition w_state : hstate := {| clusters := w_table; ts_features := [TEMPERATURE]; warnings := [] |}.
+Definition w_state : hstate := {| clusters := w_table; ts_features := [TEMPERATURE]; warnings := []; hidden := 0 |}.
 (* a week of January with observed usage; the same week offering a GHI column; January+February without observed;
    a week offering a column the settings declare as supplemental *)
 Definition w_jan : dsum :=
@@ -144,54 +144,67 @@ Definition w_fill (c : combo) : Z := 0.
 
 Lemma assigns_back_changes_state : forall cfg, assigns_back cfg = true ->
   clusters (next_state cfg w_fill w_state w_jan) <> clusters w_state.
-Proof. intros [a b c] H. cbn in H. subst a. destruct b, c; vm_compute; discriminate. Qed.
+Proof. intros [a b c e] H. cbn in H. subst a. destruct b, c, e; vm_compute; discriminate. Qed.
 
 Lemma appends_warning_changes_state : forall cfg, appends_warning cfg = true ->
   warnings (next_state cfg w_fill w_state w_jan_ghi) <> warnings w_state.
-Proof. intros [a b c] H. cbn in H. subst b. destruct a, c; vm_compute; discriminate. Qed.
+Proof. intros [a b c e] H. cbn in H. subst b. destruct a, c, e; vm_compute; discriminate. Qed.
 
 Lemma extends_features_changes_state : forall cfg, extends_features cfg = true ->
   ts_features (next_state cfg w_fill w_state w_supp) <> ts_features w_state.
-Proof. intros [a b c] H. cbn in H. subst c. destruct a, b; vm_compute; discriminate. Qed.
+Proof. intros [a b c e] H. cbn in H. subst c. destruct a, b, e; vm_compute; discriminate. Qed.
+
+Lemma writes_other_state_changes_state : forall cfg, writes_other_state cfg = true ->
+  hidden (next_state cfg w_fill w_state w_jan) <> hidden w_state.
+Proof. intros [a b c e] H. cbn in H. subst e. destruct a, b, c; vm_compute; discriminate. Qed.
 
 Lemma state_unchanged_iff : forall cfg,
   (forall fill s d, next_state cfg fill s d = s) <->
-  (assigns_back cfg = false /\ appends_warning cfg = false /\ extends_features cfg = false).
+  (assigns_back cfg = false /\ appends_warning cfg = false /\ extends_features cfg = false /\ writes_other_state cfg = false).
 Proof.
   intros cfg. split.
   - intros H. repeat split.
+    4: { destruct (writes_other_state cfg) eqn:E; [|reflexivity]. exfalso.
+         apply (writes_other_state_changes_state cfg E). rewrite H. reflexivity. }
     + destruct (assigns_back cfg) eqn:E; [|reflexivity]. exfalso.
       apply (assigns_back_changes_state cfg E). rewrite H. reflexivity.
     + destruct (appends_warning cfg) eqn:E; [|reflexivity]. exfalso.
       apply (appends_warning_changes_state cfg E). rewrite H. reflexivity.
     + destruct (extends_features cfg) eqn:E; [|reflexivity]. exfalso.
       apply (extends_features_changes_state cfg E). rewrite H. reflexivity.
-  - intros (Ha & Hw & He) fill s d. destruct cfg as [a b c]. cbn in Ha, Hw, He. subst. apply next_state_pure.
+  - intros (Ha & Hw & He & Ho) fill s d. destruct cfg as [a b c e]. cbn in Ha, Hw, He, Ho. subst. apply next_state_pure.
 Qed.
 
 (* the prediction for January+February after a January week differs from the prediction of a fresh copy *)
 Lemma assigns_back_history_dependent : forall cfg, assigns_back cfg = true ->
   snd (predict_step cfg w_fill (hrun cfg w_state [HPredict w_jan w_fill]) w_janfeb) <>
   snd (predict_step cfg w_fill w_state w_janfeb).
-Proof. intros [a b c] H. cbn in H. subst a. destruct b, c; vm_compute; discriminate. Qed.
+Proof. intros [a b c e] H. cbn in H. subst a. destruct b, c, e; vm_compute; discriminate. Qed.
 
 (* after a failed call on data with a new supplemental column, ordinary data is rejected *)
 Lemma extends_features_history_dependent : forall cfg, extends_features cfg = true ->
   snd (predict_step cfg w_fill (hrun cfg w_state [HPredict w_supp w_fill]) w_jan_ghi) <>
   snd (predict_step cfg w_fill w_state w_jan_ghi).
-Proof. intros [a b c] H. cbn in H. subst c. destruct a, b; vm_compute; discriminate. Qed.
+Proof. intros [a b c e] H. cbn in H. subst c. destruct a, b, e; vm_compute; discriminate. Qed.
+
+Lemma writes_other_state_history_dependent : forall cfg, writes_other_state cfg = true ->
+  snd (predict_step cfg w_fill (hrun cfg w_state [HPredict w_jan w_fill]) w_janfeb) <>
+  snd (predict_step cfg w_fill w_state w_janfeb).
+Proof. intros [a b c e] H. cbn in H. subst e. destruct a, b, c; vm_compute; discriminate. Qed.
 
 Lemma history_independent_iff : forall cfg,
   (forall s ops d fill, snd (predict_step cfg fill (hrun cfg s ops) d) = snd (predict_step cfg fill s d)) <->
-  (assigns_back cfg = false /\ extends_features cfg = false).
+  (assigns_back cfg = false /\ extends_features cfg = false /\ writes_other_state cfg = false).
 Proof.
   intros cfg. split.
-  - intros H. split.
+  - intros H. repeat split.
     + destruct (assigns_back cfg) eqn:E; [|reflexivity]. exfalso.
       exact (assigns_back_history_dependent cfg E (H _ _ _ _)).
     + destruct (extends_features cfg) eqn:E; [|reflexivity]. exfalso.
       exact (extends_features_history_dependent cfg E (H _ _ _ _)).
-  - intros [Ha He] s ops d fill. apply history_independent_guarded; assumption.
+    + destruct (writes_other_state cfg) eqn:E; [|reflexivity]. exfalso.
+      exact (writes_other_state_history_dependent cfg E (H _ _ _ _)).
+  - intros (Ha & He & Ho) s ops d fill. apply history_independent_guarded; assumption.
 Qed.
 
 (* ---- the corrected table never invents a label (given the oracle's contract) ---- *)
@@ -239,16 +252,16 @@ Qed.
 (* ---- the refinement statement, for every configuration ---- *)
 
 Lemma abs_inj : forall a b, abs a = abs b -> a = b.
-Proof. intros [t f w] [t' f' w'] H. unfold abs in H. cbn in H. inversion H. reflexivity. Qed.
+Proof. intros [t f w h] [t' f' w' h'] H. unfold abs in H. cbn in H. inversion H. reflexivity. Qed.
 
 Lemma predict_pure_iff : forall cfg,
   (forall fill s d, abs (fst (predict_step cfg fill s d)) = abs s /\
                     snd (predict_step cfg fill s d) = spec_predict fill s d) <->
-  (assigns_back cfg = false /\ appends_warning cfg = false /\ extends_features cfg = false).
+  (assigns_back cfg = false /\ appends_warning cfg = false /\ extends_features cfg = false /\ writes_other_state cfg = false).
 Proof.
   intros cfg. split.
   - intros H. apply state_unchanged_iff. intros fill s d. apply abs_inj. exact (proj1 (H fill s d)).
-  - intros (Ha & Hw & He). destruct cfg as [a b c]. cbn in Ha, Hw, He. subst. apply predict_pure_l.
+  - intros (Ha & Hw & He & Ho). destruct cfg as [a b c e]. cbn in Ha, Hw, He, Ho. subst. apply predict_pure_l.
 Qed.
 
 (* ---- the unstack / ffill / bfill / stack branch never invents a label either ---- *)
